@@ -61,7 +61,9 @@ enum Step {
 struct CTxn { steps: Vec<Step>, end: End, reopen: bool, ro_session: Option<(bool, BoundS, Vec<COp>)> }
 
 #[derive(Clone, Debug)]
-struct CProgram { id: u64, kt: KType, vt: VType, shape: &'static str, txns: Vec<CTxn> }
+struct CProgram { id: u64, kt: KType, vt: VType, shape: &'static str, txns: Vec<CTxn>,
+    /// page size this program's keys were sized for (long-prefix shape): it runs under the configuration with that page size
+    target_page: Option<usize> }
 
 fn session_text(kind: &str, lower: bool, b: &BoundS, ops: &[COp], close: bool) -> String {
     let mut s = format!("{} {} {}", kind, if lower { "l" } else { "u" }, b.text());
@@ -114,7 +116,7 @@ fn parse_cprograms(text: &str) -> Vec<CProgram> {
             "C" => {
                 let kt = match t[2] { "u64" => KType::U64, "str" => KType::Str, _ => KType::Bytes };
                 let vt = match t[3] { "u64" => VType::U64, _ => VType::Bytes };
-                out.push(CProgram { id: t[1].parse().unwrap(), kt, vt, shape: "file", txns: vec![] });
+                out.push(CProgram { id: t[1].parse().unwrap(), kt, vt, shape: "file", txns: vec![], target_page: None });
             }
             "B" => cur = Some(CTxn { steps: vec![], end: End::Commit, reopen: false, ro_session: None }),
             "K" | "A" => {
@@ -450,8 +452,14 @@ fn gen_ro_ops(r: &mut Rng) -> Vec<COp> {
     (0..(1 + r.below(12))).map(|_| match r.below(4) { 0 => COp::PeekNext, 1 => COp::PeekPrev, 2 => COp::Next, _ => COp::Prev }).collect()
 }
 
-fn gen_cprogram(r: &mut Rng, id: u64, force_flush: bool) -> CProgram {
-    let (kt, vt) = if force_flush { (KType::U64, VType::Bytes) } else {
+/// `long_prefix = Some(page size)`: variable-width keys that all share a prefix of about a page (page size - 40..80 bytes,
+/// sometimes a little more or less), so that neighbouring keys differ only near the end: branch separators cannot be
+/// shortened below ~a page, a branch page holds two or three children, leaves hold one or two entries. Long insert runs
+/// through the cursor then rebuild several branch levels per splice.
+fn gen_cprogram(r: &mut Rng, id: u64, force_flush: bool, long_prefix: Option<usize>) -> CProgram {
+    let (kt, vt) = if force_flush { (KType::U64, VType::Bytes) } else if long_prefix.is_some() {
+        *r.pick(&[(KType::Bytes, VType::U64), (KType::Str, VType::U64), (KType::Bytes, VType::Bytes), (KType::Str, VType::Bytes)])
+    } else {
         match r.below(10) {
             0..=3 => (KType::U64, VType::Bytes),
             4..=6 => (KType::Bytes, VType::Bytes),
@@ -460,12 +468,21 @@ fn gen_cprogram(r: &mut Rng, id: u64, force_flush: bool) -> CProgram {
             _ => *r.pick(&[(KType::Bytes, VType::U64), (KType::U64, VType::U64)]),
         }
     };
-    let shape = if force_flush { "flush-crossing" } else { *r.pick(&["random", "random", "long-run", "long-run", "empty-start"]) };
+    let shape = if force_flush { "flush-crossing" } else if long_prefix.is_some() { "long-prefix" } else { *r.pick(&["random", "random", "long-run", "long-run", "empty-start"]) };
     // spaced initial keys so that long runs fit
-    let n0 = if shape == "empty-start" { 0 } else { r.below(60) as usize };
+    let n0 = if shape == "empty-start" { 0 } else if long_prefix.is_some() { 2 + r.below(10) as usize } else { r.below(60) as usize };
+    let prefix: Vec<u8> = match long_prefix {
+        Some(ps) => {
+            let d = if r.chance(3, 4) { 40 + r.below(41) as usize } else { 12 + r.below(140) as usize };
+            let first = r.below(20) as u8;
+            (0..ps - d).map(|i| b'a' + ((first as usize + i) % 23) as u8).collect()
+        }
+        None => vec![],
+    };
     let mut shadow: Vec<Vec<u8>> = vec![];
     for i in 0..n0 {
         let k = match kt {
+            _ if long_prefix.is_some() => { let mut k = prefix.clone(); k.extend_from_slice(format!("{:02}", 5 + i * 8).as_bytes()); k }
             KType::U64 => ((i as u64 + 1) * 100_000 + r.below(3)).to_le_bytes().to_vec(),
             KType::Bytes => vec![(i * 4) as u8, r.next_u64() as u8 & 0x7f],
             KType::Str => format!("{}{}", (b'a' + (i % 26) as u8) as char, i).into_bytes(),
@@ -511,7 +528,7 @@ fn gen_cprogram(r: &mut Rng, id: u64, force_flush: bool) -> CProgram {
         } else { None };
         txns.push(CTxn { steps, end, reopen: r.chance(1, 5), ro_session: ro });
     }
-    CProgram { id, kt, vt, shape, txns }
+    CProgram { id, kt, vt, shape, txns, target_page: long_prefix }
 }
 
 fn c18_configs() -> Vec<Config> {
@@ -532,6 +549,8 @@ fn main() {
     let n: u64 = match &from_file { Some(p) => p.len() as u64, None => args.get(1).map(|s| s.parse().unwrap()).unwrap_or(50) };
     if let Some(fb) = args.get(2).and_then(|s| s.parse::<usize>().ok()) { FLUSH_BYTES.store(fb, std::sync::atomic::Ordering::Relaxed); }
     let n_flush: u64 = if from_file.is_some() { 0 } else if tier_is_thorough() { 12 } else { 2 };
+    // programs whose keys share a prefix of about a page, in turn for every page size of the configurations
+    let n_long: u64 = if from_file.is_some() { 0 } else if tier_is_thorough() { 240 } else { 24 };
     let mut r = Rng::new(seed_from_env() ^ 0xC18);
     let cfgs = c18_configs();
     let mut cases_f = std::fs::File::create("cases.txt").unwrap();
@@ -546,7 +565,8 @@ fn main() {
     let mut samples = vec![];
     for id in 0..n {
         let mut pr = r.fork(id);
-        let prog = match &from_file { Some(p) => p[id as usize].clone(), None => gen_cprogram(&mut pr, id, id < n_flush) };
+        let long_prefix = if from_file.is_none() && id >= n_flush && id < n_flush + n_long { Some(cfgs[((id - n_flush) % cfgs.len() as u64) as usize].page_size) } else { None };
+        let prog = match &from_file { Some(p) => p[id as usize].clone(), None => gen_cprogram(&mut pr, id, id < n_flush, long_prefix) };
         let text = prog.to_text();
         cases_f.write_all(text.as_bytes()).unwrap();
         cases_f.flush().unwrap();
@@ -555,7 +575,12 @@ fn main() {
             *opk.entry(match o { COp::PeekNext => "peek_next", COp::PeekPrev => "peek_prev", COp::Next => "next", COp::Prev => "prev", COp::InsBefore(..) => "insert_before", COp::InsAfter(..) => "insert_after", COp::RemNext => "remove_next", COp::RemPrev => "remove_prev" }).or_default() += 1;
         } } } }
         if samples.len() < 2 && text.len() < 500 { samples.push(text.replace('\n', " | ")); }
-        let chosen: Vec<usize> = if from_file.is_some() { (0..cfgs.len()).collect() } else {
+        let chosen: Vec<usize> = if from_file.is_some() { (0..cfgs.len()).collect() } else if let Some(ps) = prog.target_page {
+            // under the configuration the keys were sized for, and sometimes under the smallest pages as well (keys of several pages)
+            let mut c = vec![cfgs.iter().position(|c| c.page_size == ps).unwrap()];
+            if c[0] != 0 && pr.chance(1, 3) { c.push(0); }
+            c
+        } else {
             let mut c = vec![0usize];
             let x = 1 + pr.below(cfgs.len() as u64 - 1) as usize;
             c.push(x);
